@@ -10,7 +10,9 @@ walk_folder_repeat makes member paths relative.  RawFileSystem is only checked t
 Fail-closed: any expression outside the small language below raises TranslateError.
     X.replace('\\\\', '/') -> OSlash      X.casefold() -> OFold      os.path.normpath(X) -> ONorm
     X.rstrip('/') -> ORStrip              `if X == '.': X = ''` -> ODotEmpty
-    X + '/' if X else '' -> OAddSlash     self._clean_path(X), module-level helper(X) -> their translated bodies
+    X + '/' if X else '' -> OAddSlash     self.<helper>(X), module-level helper(X) -> their translated bodies
+Round 3: everything is matched on a canonical form of the module (see `canonical_module`, `normalise`, `_paths`), so that
+behaviour-preserving spellings of the same code give the same generated file; what cannot be classified still fails closed.
 """
 from __future__ import annotations
 
@@ -169,6 +171,14 @@ class Tr:
             if d is None:
                 self.err(e, 'unrecognised attribute expression')
             return d, []
+        # '' if X == '.' else X
+        if isinstance(e, ast.IfExp) and isinstance(e.test, ast.Compare) and len(e.test.ops) == 1 \
+                and isinstance(e.test.ops[0], (ast.Eq, ast.NotEq)) and _is_const(e.test.comparators[0], '.'):
+            a, b = (e.body, e.orelse) if isinstance(e.test.ops[0], ast.Eq) else (e.orelse, e.body)
+            if _is_const(a, '') and ast.dump(b) == ast.dump(e.test.left):
+                base, ops = self.expr(b, env, depth)
+                return base, ops + ['ODotEmpty']
+            self.err(e, 'unrecognised conditional expression')
         # X + '/' if X else ''   (the test in any spelling of "X is not empty", either polarity)
         if isinstance(e, ast.IfExp):
             t = _nonempty_test(e.test)
@@ -428,7 +438,17 @@ def normalise(tr, cls, fn: ast.FunctionDef) -> ast.FunctionDef:
 #   (5) in a loop body `if c: continue` followed by R  ->  `if not c: R`  (`not` pushed into comparisons);
 #   (6) `yield from (E for T in I if C)` / `yield from [E for ...]`  ->  `for T in I: if C: yield E`;
 #   (7) `for t in I: a, b = t; ...` (t not used otherwise)  ->  `for a, b in I: ...`;
-#   (8) `D = {}` followed by `for T in I: [if C:] D[K] = V`  ->  `D = {K: V for T in I [if C]}`.
+#   (8) `D = {}` followed by `for T in I: [if C:] D[K] = V`  ->  `D = {K: V for T in I [if C]}`;
+#   (9) `try: A except E: <continue/break/return/raise> else: B`  ->  the same try followed by B;
+#   (10) keyword arguments of calls to functions / classes defined in the module -> positional, by their own signature;
+#   (11) a local re-assigned by plain statements of one block (never read before the first, nor outside the block) gets
+#        one name per assignment (`v = A; v = f(v)` -> `v = A; v_1 = f(v)`), so that rule (2) can inline it;
+#   (12) `for k in self.<backend dict>: ... self.<backend dict>[k] ...`  ->  `for k, v in self.<backend dict>.items(): ... v ...`;
+#   (13) `for ...: body else: E` without a break in the body  ->  the loop followed by E;
+#   (14) `sum(1 for T in I if C)`  ->  `len([T for T in I if C])`.
+# Matching-time equivalences: `if not c: A else: B` = `if c: B else: A` and straight-line locals folded into the returned
+# expression (_paths), `if c: return A` + `return B` in a string helper = `return A if c else B` (_tail_ifexp), every spelling
+# of "X is not empty" (_nonempty_test), key uses / FileInfo sources inside helpers of the same class that are handed the name.
 _NEG = {ast.In: ast.NotIn, ast.NotIn: ast.In, ast.Eq: ast.NotEq, ast.NotEq: ast.Eq, ast.Is: ast.IsNot, ast.IsNot: ast.Is}
 
 
@@ -497,6 +517,35 @@ def _mentions(e, dumped: str) -> bool:
     return any(ast.dump(n) == dumped for n in ast.walk(e))
 
 
+def _has_break(stmts) -> bool:
+    for st in stmts:
+        if isinstance(st, ast.Break):
+            return True
+        if isinstance(st, (ast.For, ast.While, ast.FunctionDef, ast.ClassDef)):
+            if _has_break(getattr(st, 'orelse', [])):
+                return True
+            continue            # a break inside a nested loop belongs to that loop
+        for fld in ('body', 'orelse', 'finalbody'):
+            if _has_break(getattr(st, fld, []) or []):
+                return True
+        if isinstance(st, ast.Try) and any(_has_break(h.body) for h in st.handlers):
+            return True
+    return False
+
+
+class _CountToLen(ast.NodeTransformer):
+    """(14) sum(1 for T in I if C)  ->  len([T for T in I if C])   (counting the elements that pass a filter)."""
+
+    def visit_Call(self, node):
+        self.generic_visit(node)
+        if _name(node.func) == 'sum' and len(node.args) == 1 and not node.keywords and isinstance(node.args[0], (ast.GeneratorExp, ast.ListComp)) \
+                and _is_const(node.args[0].elt, 1) and len(node.args[0].generators) == 1 and isinstance(node.args[0].generators[0].target, ast.Name):
+            g = node.args[0].generators[0]
+            lc = ast.ListComp(elt=ast.Name(id=g.target.id, ctx=ast.Load()), generators=node.args[0].generators)
+            return ast.copy_location(ast.Call(func=ast.Name(id='len', ctx=ast.Load()), args=[lc], keywords=[]), node)
+        return node
+
+
 def _canon_block(fn, blk: list, in_loop: bool) -> list:
     """One block of statements, rewritten (recursively)."""
     import copy
@@ -558,6 +607,11 @@ def _canon_block(fn, blk: list, in_loop: bool) -> list:
             rest = _canon_block(fn, blk[i + 1:], True)
             out.append(ast.copy_location(ast.If(test=_negate(st.test), body=rest, orelse=[]), st))
             return out
+        # (13) for ...: body else: E   (no break in the body: the else always runs)   ->   for ...: body; E
+        if isinstance(st, (ast.For, ast.While)) and st.orelse and not _has_break(st.body):
+            moved = list(st.orelse)
+            st.orelse = []
+            blk[i + 1:i + 1] = moved
         # (9) try: A except E: <leaves> else: B   ->   try: A except E: <leaves>; B
         if isinstance(st, ast.Try) and st.orelse and not st.finalbody and st.handlers \
                 and all(h.body and isinstance(h.body[-1], (ast.Continue, ast.Break, ast.Return, ast.Raise)) for h in st.handlers):
@@ -687,7 +741,7 @@ class _KwToPos(ast.NodeTransformer):
 
 
 def canonical_module(tree: ast.Module) -> ast.Module:
-    tree = _KwToPos(tree).visit(tree)
+    tree = _CountToLen().visit(_KwToPos(tree).visit(tree))
     for fn in [n for n in ast.walk(tree) if isinstance(n, ast.FunctionDef)]:
         _ssa(fn)
     consts = _module_consts(tree)
@@ -839,6 +893,9 @@ def _collect(tr, node, dict_attr, env, found, depth=0, owner=None):
     if isinstance(node, ast.Compare) and len(node.ops) == 1 and isinstance(node.ops[0], (ast.In, ast.NotIn)) \
             and _dotted(node.comparators[0]) == f'self.{dict_attr}':
         found.append(tr.expr(node.left, env))
+    if isinstance(node, ast.Call) and isinstance(node.func, ast.Attribute) and node.func.attr in ('get', '__getitem__', '__contains__') \
+            and _dotted(node.func.value) == f'self.{dict_attr}' and node.args and not node.keywords:
+        found.append(tr.expr(node.args[0], env))         # self.<dict>.get(key[, default])
     # a helper that is handed a value derived from the name: its own key uses count, with its parameter bound to that value
     if isinstance(node, ast.Call) and depth < 3 and not any(isinstance(a, ast.Starred) for a in node.args) \
             and all(k.arg is not None for k in node.keywords):
